@@ -29,6 +29,14 @@ from typing import Any, Callable, Optional
 
 from . import env
 
+import warnings  # noqa: E402
+
+try:
+    from hypothesis.errors import HypothesisWarning  # noqa: E402
+    warnings.simplefilter("ignore", HypothesisWarning)
+except ImportError:  # pragma: no cover
+    pass
+
 MAX_SAMPLES = 8
 MAX_DETAIL = 2000
 
